@@ -73,7 +73,8 @@ def random_doc_input(rng, algo, max_obj=5, max_sp=4):
             r = rng.random()
             if style == "named" or (style in ("partial", "lookalike") and r < 0.45):
                 if style == "lookalike":
-                    nm = f"{prefix}{rng.randint(0, 4)}"
+                    # names shaped like generated ones, of this tree's prefix or of the OTHER tree's prefix
+                    nm = f"{prefix if rng.random() < 0.6 else ('S' if prefix == 'O' else 'O')}{rng.randint(0, 4)}"
                 else:
                     nm = f"{'anc' if prefix == 'O' else 'clade'}{counter[0]}"
                 counter[0] += 1
